@@ -1778,7 +1778,7 @@ class StateEngine(object):
                     else:
                         handle_error(state, data.get("Error"), data.get("Cause"))
                 else:
-                    asl_state_collect_results(state_type)
+                    asl_state_collect_results(state_type, id)
             else:
                 """
                 If task_terminated just tidy up self.branch_metadata for current
@@ -3117,7 +3117,7 @@ class StateEngine(object):
             
             self.event_dispatcher.set_timeout(asl_state_Map_delegate, retry_timeout)
 
-        def asl_state_collect_results(state_type):
+        def asl_state_collect_results(state_type, own_id=None):
             """
             Collect the results from the branches of Parallel and Map states.
             Wait until every branch terminates (reaches a terminal state) before
@@ -3214,7 +3214,14 @@ class StateEngine(object):
             event_ids = branch_results["ids"]
 
             result[index] = data
-            if previous_state_type != "Parallel" and previous_state_type != "Map":
+            if own_id != None or (
+                previous_state_type != "Parallel" and previous_state_type != "Map"
+            ):
+                """
+                A nested Parallel or Map state that joined its branches has no
+                event of its own left to hold, but one that completed at once
+                (no Branches, no items) is still holding its own event.
+                """
                 event_ids[index] = id
 
             #print("----- asl_state_collect_results -----")
